@@ -75,6 +75,11 @@ pub open spec fn agrees_bool(res: Option<ValueObj>, want: bool) -> bool {
     res matches Some(v) ==> v == ValueObj::Bool(want)
 }
 
+/// view of a dispatcher's Result as the Option the try_* functions return
+pub open spec fn ok_some(res: EvalResult<ValueObj>) -> Option<ValueObj> {
+    match res { Ok(v) => Some(v), Err(_) => None }
+}
+
 // sanity lemmas: the spec functions really are Python's floor division / modulo
 proof fn lemma_py_floordiv_examples()
     ensures
